@@ -6,8 +6,9 @@
       length is then compared with the declared parameter length;
     - preferred_address is read from the whole remaining slice as well and the number of bytes
       read is compared with the declared length only at the end;
-    - max_idle_timeout is [max(MinRemoteIdleTimeout, int64(val) * 1e6)] with int64 wrap-around,
-      min_ack_delay is [int64(val) * 1000] with wrap-around, clamped to MaxInt64 when negative;
+    - max_idle_timeout 0 is "no idle timeout" (0, like an absent parameter), otherwise
+      [max(MinRemoteIdleTimeout, val ms)]; durations that do not fit an int64 saturate at MaxInt64
+      (saturatingDuration), for max_idle_timeout (ms) and min_ack_delay (us) alike;
     - duplicates are detected only after the loop, after the min_ack_delay / missing-parameter
       checks (sort + adjacent compare), so those errors take precedence.
 
@@ -175,6 +176,10 @@ Definition is_numeric (id : Z) : bool :=
   (id =? TP_ID_mad) || (id =? TP_ID_mdfs) || (id =? TP_ID_ade) || (id =? TP_ID_acil) ||
   (id =? TP_ID_minad).
 
+(** saturatingDuration(val, unit): val units as a time.Duration, the maximum when it does not fit *)
+Definition sat_duration (val unit : Z) : Z :=
+  if maxInt64 / unit <? val then maxInt64 else val * unit.
+
 (** the numeric reader (b, paramID, expectedLen): [b] is the whole remaining input *)
 Definition read_numeric (b : list Z) (id plen : Z) (p : tparams) : res tparams :=
   match vparse b with
@@ -191,7 +196,8 @@ Definition read_numeric (b : list Z) (id plen : Z) (p : tparams) : res tparams :
     else if id =? TP_ID_mus then
       if TP_MaxStreamCount <? val then Err E_TP_STREAMS_UNI 0 else Ok (set_mus val p)
     else if id =? TP_ID_mit then
-      Ok (set_mit (Z.max TP_MinRemoteIdleTimeout (to_i64 (val * TP_Millisecond))) p)
+      if val =? 0 then Ok (set_mit 0 p)
+      else Ok (set_mit (Z.max TP_MinRemoteIdleTimeout (sat_duration val TP_Millisecond)) p)
     else if id =? TP_ID_mups then
       if val <? 1200 then Err E_TP_MUPS 0 else Ok (set_mups val p)
     else if id =? TP_ID_ade then
@@ -202,8 +208,7 @@ Definition read_numeric (b : list Z) (id plen : Z) (p : tparams) : res tparams :
       if val <? 2 then Err E_TP_ACIL 0 else Ok (set_acil val p)
     else if id =? TP_ID_mdfs then Ok (set_mdfs val p)
     else if id =? TP_ID_minad then
-      let mad := to_i64 (val * TP_Microsecond) in
-      Ok (set_minad (Some (if mad <? 0 then maxInt64 else mad)) p)
+      Ok (set_minad (Some (sat_duration val TP_Microsecond)) p)
     else Err E_TP_BUG id
   end.
 
